@@ -1483,8 +1483,8 @@ fn main() {
     // quick tier: bounded by executions per script family (deterministic work), the wall-clock cap is
     // only a safety net several times larger than the idle run time
     let quick_execs: u64 = match prop {
-        "C01" => 450,
-        "C06" => 70,
+        "C01" => 700,
+        "C06" => 350,
         _ => 2400,
     };
     let per_script_execs: u64 = cli.tier.pick(quick_execs, 60_000 * par / fams.len() as u64);
